@@ -14,10 +14,11 @@ of the fitting routine, the simulator's recursion.
 import numpy as np
 from common import Case, Failure, flist, parse_flist, clist, parse_clist, call, close_vec
 import ar_fam
+from fractions import Fraction
 
 PID = 'C11'
-LEAN_TARGETS = ['Nitime.Props.C11']
-RULE = ('round 2: one covariance stack whose diagonal / leading slices are handed as VIEWS to the scalar estimators, the one-channel and lower-order recursions before lwr_recursion runs on it (op marp), crosscov_vector(x, x) on one object (L8); refused / failing calls of every entry point then ordinary calls against fresh copies, one GrangerAnalyzer whose read is refused part-way (a later pair does not converge) with vars() compared around the failure and set_input afterwards (op gseqf) (L7); session 3: the covariance helper, MAR_est_LWR, fit_model, generate_mar and the analyzer also on integer recordings (int16/int32/int64/uint8, mixed kinds for x and y; integer samples cross the protocol as integers: op ccovi, oracle in exact rational arithmetic), float32, big-endian, Fortran-ordered, strided (both axes) and read-only arrays; lwr_recursion on float32 / F-ordered / strided / read-only stacks; fit_model and GrangerAnalyzer for explicit order x max_order (larger, equal, smaller, 1, 0, None, default), order=None explicit, criterion default / AIC / corrected AIC / table; nlags None / omitted / = N; amplitudes 1e-150..1e150 judged against the same data scaled by an exact power of two; nearly collinear channels (cond to 1e9); a perturbation phase (other options, subclass analyzers, results overwritten) followed by a re-run of a sample of the cases on fresh objects; every routine is also run in call sequences on the same argument objects (>=3 evaluations, refilled arrays, fewer/more lags); the covariance helper (auto and cross), MAR_est_LWR and fit_model are also run on record lengths AT and AROUND implementation-size thresholds '
+LEAN_TARGETS = ['Nitime.Props.C11', 'Nitime.Props.C11Sparse']
+RULE = ('wave 6: exact covariance sequences of stable VAR / AR processes with SPARSE structure built in exact rational arithmetic from dyadic parameters (seasonal x(t) = B x(t-s) + e for s = 1..P+1 with B dense / diagonal / triangular / block-diagonal / rank one / nilpotent / one channel white / identical spectra; scalar sequences with a prescribed partial-correlation pattern: white, one lag only, leading / intermediate / trailing zeros, lags 1 and 4; direct sums mixed by integer unimodular matrices; sparse VARs with lags {1,4}, {2,3}) through lwr_recursion at binary64 and through the model in exact arithmetic (op lwrq), judged by the exact block Yule-Walker residual and exact recovery of the known coefficients; zero-stuffed recordings (lagged averages vanish exactly off the stuffing factor) for MAR_est_LWR, fit_model, GrangerAnalyzer; MAR_est_LWR with its rxx argument given the recording\'s own covariances; round 2: one covariance stack whose diagonal / leading slices are handed as VIEWS to the scalar estimators, the one-channel and lower-order recursions before lwr_recursion runs on it (op marp), crosscov_vector(x, x) on one object (L8); refused / failing calls of every entry point then ordinary calls against fresh copies, one GrangerAnalyzer whose read is refused part-way (a later pair does not converge) with vars() compared around the failure and set_input afterwards (op gseqf) (L7); session 3: the covariance helper, MAR_est_LWR, fit_model, generate_mar and the analyzer also on integer recordings (int16/int32/int64/uint8, mixed kinds for x and y; integer samples cross the protocol as integers: op ccovi, oracle in exact rational arithmetic), float32, big-endian, Fortran-ordered, strided (both axes) and read-only arrays; lwr_recursion on float32 / F-ordered / strided / read-only stacks; fit_model and GrangerAnalyzer for explicit order x max_order (larger, equal, smaller, 1, 0, None, default), order=None explicit, criterion default / AIC / corrected AIC / table; nlags None / omitted / = N; amplitudes 1e-150..1e150 judged against the same data scaled by an exact power of two; nearly collinear channels (cond to 1e9); a perturbation phase (other options, subclass analyzers, results overwritten) followed by a re-run of a sample of the cases on fresh objects; every routine is also run in call sequences on the same argument objects (>=3 evaluations, refilled arrays, fewer/more lags); the covariance helper (auto and cross), MAR_est_LWR and fit_model are also run on record lengths AT and AROUND implementation-size thresholds '
         '(every power of two 256..8192 exactly and within +-nlags of it, quick: one exact + one neighbour per power; thorough: all offsets around 2048/4096, decimal thresholds too; the Lean model is compared on all lags of sampled channel pairs, the oracle on every entry); '
         'GrangerAnalyzer objects are re-targeted with set_input (same shape / other length / other rate / other channel count) after reading a model-derived attribute and their order/autocov/model_coef/error_cov judged against the NEW data; '
         'cases from one PRNG state: covariance sequences estimated from coloured multichannel data (N 64..512, thorough ..4096) '
@@ -32,6 +33,8 @@ ASSUMPTIONS = ['real-valued data (lwr_recursion allocates real coefficient array
                'R(0) symmetric',
                'positive-definiteness of the innovation covariance is NOT proved: per-run eigvalsh certificate whenever the block-Toeplitz matrix of the sequence is positive definite']
 TRUSTED_EXTRA = [
+    'wave 6: the control flow of the order loop of lwr_recursion (no break / continue / return / raise, no conditional, header range(P), `return a, sigf` directly after it) is GENERATED from the source (harness/translate_c11.py gen_lwr_flow -> Generated/LwrFlow.lean; flow-insensitive ast walk of the loop body); Props/C11Sparse.lean lwr_source_runs_every_pass is decide over it',
+    'op lwrq: the exact instance `GSq CQ n` (complex rationals, Model/C10.lean CQ; placeholder sqrtRe/phasor never called) runs the SAME lwr text; the structured sequences are built by harness/ar_exact.py in fractions.Fraction from dyadic parameters and are exactly representable in binary64 (checked per case, counted in structured_exact)',
     'op marp: the model threads the covariance stack through the scalar consumers of its diagonal views (`SliceCall`) only; program steps on private copies, on the signal path and lower-order block recursions on leading slices are read-only in the model as well (no stack step); `Generated/GrangerAttrs.lean` (`survivors`, `modelAccumulatorIsLocal`) is an `ast` walk of class GrangerAnalyzer: attribute writes through other aliases of `self` or in base classes are not seen by the translator (the run-time `vars()` comparison of op gseqf sees them)',
    
     'the lag counts of MAR_est_LWR / fit_model and the shape of the criterion loop are GENERATED from the source (harness/translate_c11.py -> Generated/FitModel.lean); the theorems marEst_order, fitModel_reports_its_order, fitModel_loop_shape are about the generated definitions',
@@ -234,7 +237,7 @@ def fit_kwargs(m, crit=None):
 def run_impl(m):
     ar, ut, gr = mods()
     op = m['op']
-    if op == 'lwr':
+    if op in ('lwr', 'lwrq'):
         r = ar_fam.variant(np.array(parse_flist(m['r'])).reshape(-1, m['nc'], m['nc']), m.get('dt'))
         return call(lambda: (ar.lwr_recursion(r), (lambda a, s: 'ok %s %s' % (rflat(a), rflat(s)))(*ar.lwr_recursion(r)))[1])
     if op == 'gseq':
@@ -252,6 +255,14 @@ def run_impl(m):
         return call(lambda: (f(), f())[1])
     if op == 'mar' and 'prog' in m:
         return call(lambda: (lambda a, s: 'ok %s %s' % (rflat(a), rflat(s)))(*run_prog(m, x)[0]))
+    if op == 'mar' and m.get('rxx'):
+        # the optional `rxx` argument, given the recording's OWN lagged covariances (laid out as by autocov_vector, with exactly
+        # order+1 lags or more): whether the routine honours or ignores it, the answer is the one for the recording
+        def f():
+            R = ut.autocov_vector(xv_of(m), nlags=m['order'] + 1 + (2 if m['rxx'] == 'own-more' else 0))
+            a, s_ = ar.MAR_est_LWR(x, m['order'], rxx=R)
+            return 'ok %s %s' % (rflat(a), rflat(s_))
+        return call(lambda: (f(), f())[1])
     if op == 'mar':
         return call(lambda: (ar.MAR_est_LWR(x, m['order']), (lambda a, s: 'ok %s %s' % (rflat(a), rflat(s)))(*ar.MAR_est_LWR(x, m['order'])))[1])
     if op == 'fitc':
@@ -413,6 +424,10 @@ def line_of(m):
     op = m['op']
     if op == 'lwr':
         return 'C11 lwr %d %s' % (m['nc'], clist(parse_flist(m['r'])))
+    if op == 'lwrq':        # the binary64 lags as exact rationals int / 2^k: the model runs the recursion in exact arithmetic
+        import ar_exact
+        den, ints = ar_exact.dyadic_ints(parse_flist(m['r']))
+        return 'C11 lwrq %d %d %s' % (m['nc'], den, ','.join(str(v) for v in ints))
     if op == 'acov':
         return 'C11 acov %d %d %s' % (m['nc'], m['nl'], clist(parse_flist(m['x'])))
     if op == 'mar' and 'prog' in m:
@@ -453,6 +468,33 @@ def cmp_groups(n_exact=0, rtol=1e-8, atol=1e-300):
         fl = lambda zs: [t for z in zs for t in (z.real, z.imag)]
         for x, y in zip(a[n_exact:], b[n_exact:]):
             if not close_vec(fl(parse_clist(x)), fl(parse_clist(y)), rtol, atol):
+                return False
+        return True
+    return f
+
+
+def cmp_lwrq(cond):
+    """impl = lwr_recursion in binary64; model = the same recursion in EXACT rational arithmetic on the same lags, followed by
+    the exact truth values of: block Yule–Walker residual == 0, sigma == sum_i A(i) R(-i), every inverse existed (all must
+    be 1) and `the early-exit variant returns the same coefficients` (informational: 0 marks an input on which a vanishing
+    intermediate reflection numerator is followed by a non-vanishing one)"""
+    def f(impl, model):
+        if not (impl.startswith('ok ') and model.startswith('ok ')):
+            return impl == model
+        a, b = impl.split()[1:], model.split()[1:]
+        if len(a) != 2 or len(b) != 3 or b[2].split(',')[:3] != ['1', '1', '1']:
+            return False
+        if b[2].split(',')[3] == '0':
+            STATS['early_exit_would_differ'] = STATS.get('early_exit_would_differ', 0) + 1
+        k = max(1.0, cond * 1e-3)
+        for x, y, absolute in ((a[0], b[0], True), (a[1], b[1], False)):
+            vi = [z.real for z in parse_clist(x)]
+            toks = y.split(',')
+            vm = [float(Fraction(t)) for t in toks[0::2]]
+            if any(Fraction(t) != 0 for t in toks[1::2]) or any(z.imag != 0 for z in parse_clist(x)):
+                return False
+            # coefficients are dimensionless: an exactly-zero coefficient is met up to eps*cond
+            if not close_vec(vi, vm, 1e-9 * k, 1e-9 * k if absolute else 1e-300):
                 return False
         return True
     return f
@@ -515,6 +557,8 @@ def check_solution(r, a, sigma, fail, tag='', prec=1.0):
 def judge_value(m, impl, clause):
     ar, ut, gr = mods()
     op = m['op']
+    if op == 'lwrq':          # same routine, same claims
+        op = 'lwr'
 
     def fail(sym, what):
         return Failure('%s/%s' % (clause, sym), '%s: %s [op %s]' % (clause, what, op), {'meta': m, 'clause': clause})
@@ -571,6 +615,8 @@ def judge_value(m, impl, clause):
         if len(a) != r.shape[0] - 1:
             return fail('shape', '%d coefficient matrices for %d lags' % (len(a), r.shape[0]))
         f = check_solution(r, a, sigma, fail, prec=tolf(m))
+        if not f and 'struct' in m and tolf(m) == 1:
+            f = structured_judge(m, r, a, sigma, fail)
         if not f and 'pow2' in m:       # the equations are homogeneous: R·2^k gives the SAME coefficients and Σ·2^k (exact scaling)
             a2, s2 = ar.lwr_recursion(ar_fam.variant(r * 2.0 ** m['pow2'], m.get('dt')))
             if np.abs(a2 - a).max() > 1e-9 * max(1.0, np.abs(a).max()) or np.abs(s2 / 2.0 ** m['pow2'] - sigma).max() > 1e-9 * np.abs(r[0]).max():
@@ -681,6 +727,36 @@ def judge_value(m, impl, clause):
         if worst > 1e-9 * max(np.abs(mar).max(), np.abs(nz).max(), 1e-300):
             return fail('recursion', 'X(t) + sum a(i) X(t-i) - E(t) = %.3g' % worst)
         return None
+    return None
+
+
+def structured_judge(m, r, a, sigma, fail):
+    """wave 6: exact covariances of a KNOWN stable process with sparse / structured coefficients (a vanishing intermediate
+    partial correlation, white channels, identical spectra, order lower than the fitted one): the block Yule–Walker residual
+    of the returned numbers in exact rational arithmetic, and exact recovery of the known coefficients and innovation
+    covariance"""
+    import ar_exact
+    nc = r.shape[1]
+    P = len(a)
+    s0 = float(np.abs(r[0]).max())
+    cond = np.linalg.cond(block_toeplitz(r, P))
+    k = max(1.0, cond * 1e-3)
+    amax = max(1.0, float(np.abs(a).max()) if len(a) else 1.0)
+    res, dsig = ar_exact.yw_residual_exact(r, a, sigma)
+    if res > 1e-9 * k * s0 * amax * (P + 1) * nc:
+        return fail('normal-equations', 'exact covariances of %s: block Yule-Walker residual %.3g in exact arithmetic (scale %.3g)' % (m['struct'], res, s0))
+    if dsig > 1e-9 * k * s0 * amax * (P + 1) * nc:
+        return fail('sigma', 'exact covariances of %s: innovation covariance differs from sum_i A(i)R(-i) by %.3g' % (m['struct'], dsig))
+    tA = -np.array(parse_flist(m['true_A'])).reshape(-1, nc, nc)
+    if len(tA) == P:
+        err = float(np.abs(a - tA).max())
+        if err > 1e-9 * k * max(1.0, float(np.abs(tA).max())):
+            lag = int(np.unravel_index(np.argmax(np.abs(a - tA)), a.shape)[0]) + 1
+            return fail('recovery', 'exact covariances of %s (P=%d, %d channels): coefficient at lag %d off by %.3g' % (m['struct'], P, nc, lag, err))
+    if 'true_V' in m:
+        tV = np.array(parse_flist(m['true_V'])).reshape(nc, nc)
+        if float(np.abs(sigma - tV).max()) > 1e-9 * k * s0 * amax:
+            return fail('recovery-sigma', 'exact covariances of %s: innovation covariance off by %.3g' % (m['struct'], float(np.abs(sigma - tV).max())))
     return None
 
 
@@ -1035,11 +1111,107 @@ def cases(rng, tier, seed):
         if c.meta['op'] in ('lwr', 'mar', 'fit') and seen.setdefault(c.meta['op'], 0) < (4 if not big else 30):
             seen[c.meta['op']] += 1
             c.meta['l7'] = True
+    out += structured_cases(common.np_rng(PID, seed, 'structured'), big)
     out += family_cases(nrng, big)
     out += option_cases(nrng, big)
     out += boundary_cases(nrng, big)
     out += round2_cases(nrng, big)
     out += rerun_cases(nrng, out, big)
+    return out
+
+
+# ------------------------------------------------------------------ wave 6: structured exact inputs
+def structured_cases(nrng, big):
+    """exact covariance sequences of stable VAR / AR processes with SPARSE lag structure, built in exact rational arithmetic
+    from dyadic parameters (`ar_exact`): seasonal x(t) = B x(t-s) + e (s = 1..P+1; B dense / diagonal / triangular /
+    block-diagonal / rank one / nilpotent / one channel white / identical spectra), scalar sequences with a prescribed
+    partial-correlation pattern (white, one lag only, leading / intermediate / trailing zeros, lags 1 and 4), direct sums of
+    those mixed by an integer unimodular matrix; sparse VARs through the impulse response (lags {1,4}, {2,3}, leading zero
+    matrices).  Every sequence goes through `lwr_recursion` at binary64 (op lwr) and, for small sizes, through the model in
+    exact arithmetic (op lwrq).  `MAR_est_LWR`, `fit_model` and the analyzer get zero-stuffed recordings: their lagged
+    averages vanish EXACTLY at every lag that is not a multiple of the stuffing factor."""
+    import ar_exact
+    out = []
+    n = 54 if not big else 600
+    fams = ['seasonal', 'sum', 'scalar']
+    for i in range(n):
+        fam = fams[i % 3]
+        nc = 1 if fam == 'scalar' else int(nrng.randint(1 if fam == 'seasonal' else 2, 7))
+        P = int(nrng.randint(2, 9)) if i % 9 else 1
+        if fam == 'sum' and P > 6:
+            P = 6
+        d = ar_exact.structured_sequence(nrng, nc, P, fam)
+        exact = ar_exact.is_exact(d['R'])
+        r = ar_exact.to_float(d['R'])
+        if not np.linalg.cond(block_toeplitz(r, P)) < COND_MAX:
+            STATS['skipped_ill_conditioned'] += 1
+            continue
+        pw = int(nrng.choice([0, 0, 0, -20, 13, -40]))          # exact powers of two: zeros stay zeros
+        m = {'op': 'lwr', 'nc': nc, 'perm': [int(t) for t in nrng.permutation(nc)], 'r': flist((r * 2.0 ** pw).reshape(-1)),
+             'true_A': flist(ar_exact.to_float(d['C']).reshape(-1)), 'true_V': flist((ar_exact.to_float([d['V']])[0] * 2.0 ** pw).reshape(-1)),
+             'struct': d['desc'], 'exact_input': bool(exact)}
+        STATS['structured_exact' if exact else 'structured_rounded'] = STATS.get('structured_exact' if exact else 'structured_rounded', 0) + 1
+        cl = 'lwr/structured/%s/%s' % (fam, 'scalar' if nc == 1 else 'multi')
+        out.append(mk_case(m, cl, cmp_groups()))
+        if nc <= 4 and P <= 6 and (not big or i % 4 == 0 or nc <= 2):
+            mq = dict(m, op='lwrq')
+            out.append(mk_case(mq, cl + '/exact-arithmetic', cmp_lwrq(float(np.linalg.cond(block_toeplitz(r, P))))))
+    # sparse VARs whose covariances come through the impulse response (rounded): lags {1,4}, {2,3}, leading zero matrices,
+    # block-triangular / block-diagonal coefficient matrices
+    pats = [(4, [0, 3]), (3, [1, 2]), (3, [2]), (4, [3]), (2, [1]), (4, [1, 3])]
+    for i in range(12 if not big else 120):
+        nc = int(nrng.randint(1, 5))
+        Pt, lags = pats[i % len(pats)]
+        P = int(nrng.randint(Pt, 9))
+        A = np.zeros((Pt, nc, nc))
+        for l in lags:
+            A[l] = nrng.randint(-3, 4, (nc, nc)) / 8.0
+            if i % 3 == 1:
+                A[l] = np.tril(A[l])
+            elif i % 3 == 2:
+                A[l] = np.diag(np.diag(A[l]))
+        C = np.zeros((nc * Pt, nc * Pt))
+        C[:nc, :] = np.hstack(list(A))
+        C[nc:, :-nc] = np.eye(nc * (Pt - 1))
+        if not np.any(A[lags[-1]]) or np.abs(np.linalg.eigvals(C)).max() > 0.9:
+            continue
+        L = np.tril(nrng.randint(-3, 4, (nc, nc)) / 4.0, -1) + np.eye(nc)
+        r = exact_cov(A, L.dot(L.T), P + 1)
+        r[0] = (r[0] + r[0].T) / 2
+        if not np.linalg.cond(block_toeplitz(r, P)) < COND_MAX:
+            STATS['skipped_ill_conditioned'] += 1
+            continue
+        m = {'op': 'lwr', 'nc': nc, 'perm': [int(t) for t in nrng.permutation(nc)], 'r': flist(r.reshape(-1)), 'true_A': flist(A.reshape(-1))}
+        out.append(mk_case(m, 'lwr/structured/sparse-var/%s' % ('scalar' if nc == 1 else 'multi'), cmp_groups()))
+    # MAR_est_LWR / fit_model / analyzer on zero-stuffed recordings
+    for i in range(8 if not big else 60):
+        s = int(nrng.choice([2, 2, 3, 4]))
+        nc = int(nrng.randint(1, 4))
+        N = int(nrng.choice([64, 100, 128]))
+        x = ar_exact.zero_stuffed(nrng, coloured(nrng, nc, N), s)
+        order = int(nrng.randint(s, min(2 * s + 1, 8) + 1))
+        if np.linalg.cond(block_toeplitz(direct_autocov(x, order + 1), order)) < COND_MAX:
+            m = {'op': 'mar', 'nc': nc, 'order': order, 'x': flist(x.reshape(-1)), 'struct': 'zero-stuffed s=%d' % s}
+            out.append(mk_case(m, 'mar/structured/zero-stuffed', cmp_groups()))
+        x2 = ar_exact.zero_stuffed(nrng, coloured(nrng, 2, N), s)
+        order = int(nrng.randint(s, 2 * s + 2))
+        if np.linalg.cond(block_toeplitz(direct_autocov(x2, order + 1), order)) < COND_MAX:
+            m = {'op': 'fit', 'nc': 2, 'crit': 'bic', 'order': order, 'maxo': 10, 'x': flist(x2.reshape(-1)), 'struct': 'zero-stuffed s=%d' % s}
+            out.append(mk_case(m, 'fit/fixed/structured/zero-stuffed', cmp_groups(n_exact=1)))
+        # MAR_est_LWR with its optional `rxx` argument: the recording's own covariances (channel counts above and below order+1)
+        nc_r, order_r = [(3, 1), (4, 2), (2, 3), (3, 2), (5, 2), (2, 1)][i % 6]
+        xr = coloured(nrng, nc_r, N)
+        if i % 2:
+            xr = ar_exact.zero_stuffed(nrng, xr, 2)
+        if np.linalg.cond(block_toeplitz(direct_autocov(xr, order_r + 1), order_r)) < COND_MAX:
+            m = {'op': 'mar', 'nc': nc_r, 'order': order_r, 'x': flist(xr.reshape(-1)), 'rxx': 'own' if i % 3 else 'own-more'}
+            out.append(mk_case(m, 'mar/structured/rxx-supplied/%s' % ('wide' if nc_r > order_r + 1 else 'narrow'), cmp_groups()))
+        if i % 4 == 0:
+            steps = [{'nproc': 2, 'Fs': 1.0, 'kind': 'construct', 'data': flist(x2.reshape(-1))},
+                     {'nproc': 2, 'Fs': 1.0, 'kind': 'same-shape', 'data': flist(ar_exact.zero_stuffed(nrng, coloured(nrng, 2, N), s).reshape(-1))}]
+            m = {'op': 'gseq', 'nc': 2, 'crit': 'bic', 'order': order, 'maxo': 10, 'ij': None, 'steps': steps,
+                 'first': ['model_coef', 'error_cov', 'order']}
+            out.append(mk_case(m, 'analyzer/retarget/structured/zero-stuffed', cmp_tokens()))
     return out
 
 
